@@ -33,6 +33,8 @@ type dirItem struct {
 	dirEntry       []directoryEntry // must be alphabetically sort by name
 	dirEntryJoliet []directoryEntry // must be alphabetically sort by name
 	files          []directoryFile
+
+	childEntryIdx map[string]int // child directory path -> index of its record (same in both hierarchies)
 }
 
 func (i dirItem) isDirectChild(of dirItem) bool {
@@ -40,21 +42,21 @@ func (i dirItem) isDirectChild(of dirItem) bool {
 	return p == parentDir
 }
 
+// findDirEntry returns record of parent directory (receiver) that describes child directory item.
+// Records can't be matched by identifier: different names may map to the same identifier,
+// so the position remembered when record was created is used.
 func (i dirItem) findDirEntry(item *dirItem, joliet bool) *directoryEntry {
 	entries := i.dirEntry
 	if joliet {
 		entries = i.dirEntryJoliet
 	}
 
-	identifier := makeIdentifier(item.name, joliet)
-
-	for i := range entries {
-		if entries[i].Identifier == identifier {
-			return &entries[i]
-		}
+	idx, ok := i.childEntryIdx[item.path]
+	if !ok || idx >= len(entries) {
+		return nil
 	}
 
-	return nil
+	return &entries[idx]
 }
 
 type dirItemList []dirItem
